@@ -94,9 +94,6 @@ def run_property(pid, tier, repo, replay, evidence_dir, write_evidence, seed, t0
     if not results and not rule_errors:
         raise AnalysisError(f"no rule of {pid} is implemented")
     extra_notes = []
-    if tier == "thorough":
-        from sa import thorough
-        extra_notes = thorough.run(pid, spec, ctx, repo)
     replay_filter = None
     if replay:
         with open(replay, encoding="utf8") as fh:
@@ -129,6 +126,9 @@ def run_property(pid, tier, repo, replay, evidence_dir, write_evidence, seed, t0
         for line in (o.detail.get("path") or [])[:12]:
             print(f"      {line}")
         print(f"VIOLATION property={pid} replay={path}")
+    if tier == "thorough" and not new and not rule_errors and not replay:
+        from sa import thorough
+        extra_notes = thorough.run(pid, spec, ctx, repo)
     if rule_errors and not new:
         # nothing to report, but part of the analysis could not see: never a silent pass
         raise AnalysisError("; ".join(rule_errors))
